@@ -93,7 +93,7 @@ def run(ck):
     ck.kcompare("avl", exe, "c06", hist, corpus_prefix="avl", what="ZixTree under allocation faults differs from the model")
     # ---- file_equals: every pattern of refused page requests (none, both, only the first, only the second)
     srcs15 = ["h_c15.c"] + [os.path.join(REPO, "src", f) for f in ["posix/filesystem_posix.c", "system.c", "errno_status.c", "filesystem.c", "path.c", "string_view.c", "allocator.c", "posix/system_posix.c"]]
-    exe = ck.cc("h_c15", srcs15, flags=["-Wl,--wrap=fstat,--wrap=fstat64"])
+    exe = ck.cc("h_c15", srcs15, flags=["-Wl,--wrap=fstat,--wrap=fstat64,--wrap=mkdir"])
     if not exe: return
     s15 = os.path.join(ck.work, "fs15c07"); os.makedirs(s15, exist_ok=True)
     sp = ck.write_script("page.script", ["page"])
